@@ -245,7 +245,7 @@ def check_C02(chk):
             n = bytearray(12)
             n[b // 8] |= 1 << (b % 8)
             lines.append(enc_line(f"nb{v}-{b}", 'aead', dict(v=v), dict(k=r.bytes(kb), n=bytes(n), ad=b'', m=r.bytes(5)), keep=0))
-    cfgs = ['prod', 'alt3', 'shared', 'dbg'] + (['alt', 'alt0', 'o1', 'o2', 'os'] if chk.thorough else [])
+    cfgs = ['prod', 'alt3', 'shared', 'dbg', 'portable'] + (['alt', 'alt0', 'o1', 'o2', 'os'] if chk.thorough else [])
     groups = chunks(lines, 24)
     execs, seen = [], set()
     plans = []
